@@ -11,7 +11,8 @@ Inductive op :=
 | OActivate                  (* sm.activate_initial_state() *)
 | OConstruct                 (* sm = M(model, ...): a new machine (new engine, queue, lock) over the same model *)
 | OWrite (s : nat)           (* sm.current_state_value = <value of state s> *)
-| OAdd (ps : list nat).      (* sm.add_listener(<providers ps>) *)
+| OAdd (ps : list nat)       (* sm.add_listener(<providers ps>) *)
+| OClone.                    (* sm = copy.deepcopy(sm) / pickle round trip: go on with the clone *)
 
 (* a returned value is kept with its two parts (before results, on results): Python sees [res_val] *)
 Inductive outcome := RVal (v : pyres) | RExn (x : exn) | RFuel.
@@ -44,6 +45,11 @@ Definition mkobs (rm : rmachine) (r : outcome) (c : cfg) : obs :=
 
 Definition new_engine (c : cfg) : cfg := set_depth (set_locked (set_queue c []) false) 0.
 
+(* the registry of a clone (__setstate__): machine, model and every listener attached so far are
+   resolved in one round, exactly as a constructor does, and the engine is chosen after that *)
+Definition clone_md (md : mdecl) : mdecl :=
+  with_erounds (with_rounds md [uniq [] (concat (md_rounds md))]) 1.
+
 Definition run_op (beh : behaviour) (md : mdecl) (fuel : nat) (o : op) (c : cfg) : mdecl * cfg * obs :=
   let rm := resolve md in
   let c0 := clear_log c in
@@ -54,8 +60,11 @@ Definition run_op (beh : behaviour) (md : mdecl) (fuel : nat) (o : op) (c : cfg)
                do (c1, _v) <- construct beh rm fuel (new_engine c0); Ok c1 no_res
            | OWrite s => Ok (set_field c0 (Some s)) no_res
            | OAdd _ => Ok c0 no_res
+           | OClone =>
+               (* __setstate__: fresh registry and engine, started like a new one *)
+               do (c1, _v) <- construct beh (resolve (clone_md md)) fuel (new_engine c0); Ok c1 no_res
            end in
-  let md1 := match o with OAdd ps => add_round md ps | _ => md end in
+  let md1 := match o with OAdd ps => add_round md ps | OClone => clone_md md | _ => md end in
   let rm1 := resolve md1 in
   match r with
   | Ok c1 v => (md1, c1, mkobs rm1 (RVal v) c1)
